@@ -38,7 +38,7 @@ def units():
     for d in range(30):
         dd = "%02d" % d
         tq = both if d in QUICK_COMPOSE else th
-        us.append(Unit("nb_compose_d" + dd, P + "nb_compose_d" + dd, FN, "depth %d: neighbours(h,c).get(dir) and neighbour(h,dir) == neighbour_from_parts(decode(h),dir), all cells, 9 directions, centre iff requested" % d, tiers=tq, timeout=1500, mem_gb=6))
+        us.append(Unit("nb_compose_d" + dd, P + "nb_compose_d" + dd, FN, "depth %d: neighbours(h,c).get(dir) and neighbour(h,dir) == neighbour_from_parts(decode(h),dir), all cells, 9 directions, centre iff requested" % d, tiers=tq, timeout=3600, mem_gb=6))
         us.append(Unit("nb_panic_d" + dd, P + "nb_panic_d" + dd, ["Layer::neighbours", "Layer::neighbour", "Layer::check_hash"], "depth %d: cell number >= 12*4^d rejected by a panic on every path (neighbours and neighbour)" % d, kind="must_panic", allowed_fail=[r"Wrong hash value: too large"], tiers=tq, timeout=600))
         if d <= 5:
             us.append(Unit("nfp_label_d" + dd, P + "nfp_label_d" + dd, NFP, "depth %d: contract of neighbour_from_parts vs vertex-sharing oracle, all cells x 9 directions" % d, tiers=both if d <= 3 else th, timeout=900))
